@@ -29,9 +29,12 @@ class YowIqProtocolLayer(YowProtocolLayer):
         self.gotPong(pingEntity.getId())
         self.toUpper(ResultIqProtocolEntity.fromProtocolTreeNode(protocolTreeNode))
 
+    def onPingError(self, protocolTreeNode, pingEntity):
+        self.toUpper(ErrorIqProtocolEntity.fromProtocolTreeNode(protocolTreeNode))
+
     def sendIq(self, entity):
         if entity.getXmlns() == "w:p":
-            self._sendIq(entity, self.onPong)
+            self._sendIq(entity, self.onPong, self.onPingError)
         elif entity.getXmlns() in ("urn:xmpp:whatsapp:push", "w", "urn:xmpp:whatsapp:account", "encrypt"):
             self.toLower(entity.toProtocolTreeNode())
 
